@@ -170,6 +170,13 @@ def classify(diags, meta):
             for o in obs:
                 if o["kind"] == "clause" and o["from"] <= s["line_start"] <= o["to"]:
                     ob_id, item_id = o["id"], o["item"]
+        # 1b. a loop invariant refuted at a `continue` / `break` / `return`: the primary span is that statement, the tagged
+        #     invariant is a secondary span
+        if ob_id is None and "invariant" in msg:
+            for s in spans:
+                for o in obs:
+                    if o["kind"] == "clause" and o["from"] <= s["line_start"] <= o["to"] and not o["id"].startswith("req:"):
+                        ob_id, item_id = o["id"], o["item"]
         # 2. otherwise the body obligation of the item that contains a non-clause span
         callee_tag = None
         if ob_id is None and "precondition" in msg:
@@ -571,7 +578,8 @@ def do_check(prop, args, scratch, seed, t0):
     und_units = {r["unit"] for r in results if r["undecided"]}
     # (d) in the quick tier too for units that ask for it (`witness_in_quick`): parts of a property that live in code no
     # contract reaches (proc-macros, serde attributes, thin delegating wrappers) are at least exercised on every change.
-    need_witness = True
+    # experiments only (tools/neutral_all.sh): the deductive part alone; never set by a registered command
+    need_witness = not os.environ.get("VERIF_NO_WITNESS")
     if need_witness:
         for u in units:
             if u.get("witness") and (args.tier == "thorough" or u.get("witness_in_quick") or u.get("mode") == "bounded" or u["unit"] in und_units
